@@ -160,12 +160,14 @@ PROPERTIES = {
 PROPERTIES.update({
     "C04": {
         "level": "proof",
-        "verus": [("u10_changes", ["transaction_args", "update_heads", "update_deps", "lemma_heads_preserved", "lemma_prefix_set_step"]), ("u16_autocommit", "*")],
+        "verus": [("u10_changes", ["transaction_args", "update_heads", "update_deps", "lemma_heads_preserved", "lemma_prefix_set_step"]), ("u16_autocommit", "*"),
+                  ("u18_actor_table", ["remove_actor", "get_or_create_actor_index", "get_actor_index", "put_actor", "insert_actor", "rewrite_with_new_actor"])],
         "kani": [],
         "not_under_contract": ["AutoCommit::rollback, SyncWrapper::receive_sync_message and the Transactable methods of AutoCommit (closure with tuple-pattern parameter / trait-impl methods: outside this Verus)", "TransactionInner::commit (assumed contract: requires the document version its cached arguments were computed against)", "ChangeGraph::add_changes / add_nodes", "Automerge::isolate_actor", "get_or_create_actor_index", "seq_for_actor / max_op / get_hash / get_heads (assumed accessor contracts)", "loads"],
         "trusted": ["std BTreeSet/HashSet as mathematical sets (assumed stub contracts)", "<[T]>::to_vec / <[T]>::contains assume_specification", "Change accessors (hash, deps) as abstract fields"],
         "explanation": "Verus proves on the real text of Automerge::transaction_args that seq = seq_for_actor+1, start_op = max_op+1, isolated deps = the given heads, "
-                       "non-isolated deps = current heads plus the actor's previous change without duplicate; on the real AutoCommit methods (U16, ghost document version) that a lazily opened transaction is always "
+                       "non-isolated deps = current heads plus the actor's previous change without duplicate; (U18) the actor a change is attributed to -- the document's own cached actor index -- keeps naming the same actor id "
+                       "through every insertion into and removal from the actor table; on the real AutoCommit methods (U16, ghost document version) that a lazily opened transaction is always "
                        "based on the current document state and scoped to the current isolation heads when it is committed, that every entry point that lets remote changes / actor changes in flushes it first, that flushing "
                        "never leaves isolation and moves the isolated view to the change just made, and that isolate(h) isolates at exactly h; and on the real ChangeGraph::update_heads / Automerge::update_deps that "
                        "heads' = (heads \\ deps) + {hash}, with lemma_heads_preserved showing this keeps 'heads = applied changes nobody depends on'. Callees are assumed contracts (listed).",
